@@ -198,6 +198,10 @@ func (g *Gen) genDeepcopyProgram(prefix string, npk int, arrayRefs bool) ([]dcPk
 			b.WriteString("// +k8s:deepcopy-gen=false\ntype Impl struct{ V *int }\n\nfunc (i *Impl) Get() int { return *i.V }\nfunc (i *Impl) DeepCopyObj() Obj {\n\tif i == nil {\n\t\treturn nil\n\t}\n\tv := *i.V\n\treturn &Impl{V: &v}\n}\n\n")
 			cur.Types = append(cur.Types, dcType{Name: "Obj", Kind: "iface"}, dcType{Name: "Impl", Kind: "impl"})
 			d.classes["named-interface"] = true
+			// ... and an implementation with value receivers (nonpointer-interfaces): the generator writes its DeepCopyObj
+			fmt.Fprintf(&b, "// +k8s:deepcopy-gen=true\n// +k8s:deepcopy-gen:interfaces=%s.Obj\n// +k8s:deepcopy-gen:nonpointer-interfaces=true\ntype ValImpl struct {\n\tN int\n\tP *int\n}\n\nfunc (v ValImpl) Get() int { return v.N }\n\n", pk.Path)
+			cur.Types = append(cur.Types, dcType{Name: "ValImpl", Kind: "struct", Generated: true})
+			d.classes["value-implementation-of-interface"] = true
 		}
 		// a type with hand-written deep copy functions which count their calls
 		if g.Chance(0.5) {
